@@ -185,17 +185,24 @@ def run(F, R, tier):
         "<" + JWK + " as zeroize::Zeroize>::zeroize": "reviewed: zeroises the values in place; the enum variant (family) and kty are unchanged",
     }
     ext = "<" + JWK + " as core::convert::TryFrom<jsonprooftoken::jwk::key::Jwk>>::try_from"
-    hx = F.hir(ext)
-    if hx is not None:
-        pairs = []
-        for n in H.walk(H.root(hx)):
-            if n.get("k") == "tup" and len(n["es"]) == 2:
-                a_, b_ = H.strip(n["es"][0]), H.strip(n["es"][1])
-                if a_.get("k") == "path" and b_.get("k") == "call" and b_.get("ctor"):
-                    pairs.append((H.variant_name(a_.get("res", {})), H.variant_name(b_["ctor"])))
-        r3.site("TryFrom<JwkExt>: (kty, params) pairs %s" % pairs)
-        if pairs and all(a_ == b_ for a_, b_ in pairs):
-            ok_writers[ext] = "checked: kty and params are produced together by one match arm with the same family"
+    if F.hir(ext) is not None:
+        # on the decision table: every Jwk returned has kty and params of one family
+        tabx = SR.Table(F, ext, opaque=r"JwkParams(Ec|Rsa|Oct|Okp) as core::convert::From<.*>>::from$|From::from$|Url as core::str::traits::FromStr>::from_str$|from_str$", rule=r3)
+        okx = bool(tabx.ok())
+        fams = set()
+        for q in tabx.ok():
+            out = q.ret.fields[0] if isinstance(q.ret, sym.V) and q.ret.fields else None
+            kt = out.f.get("kty") if isinstance(out, sym.St) else None
+            pv = out.f.get("params") if isinstance(out, sym.St) else None
+            kn = kt.name if isinstance(kt, (sym.V, sym.Ctor)) else None
+            pn = pv.name if isinstance(pv, sym.V) else None
+            fams.add((kn, pn))
+            if not (kn is not None and kn == pn):
+                okx = False
+                r3.fail((ext, "coupled"), "TryFrom<JwkExt> builds a Jwk with kty %s and parameters of family %s" % (kn, pn))
+        r3.site("TryFrom<JwkExt>: (kty, params family) on accepting paths %s" % sorted(fams, key=str))
+        if okx:
+            ok_writers[ext] = "checked: on every accepting path kty and params are of one family"
     for w, kinds in sorted(writers.items()):
         r3.site("%s writes %s" % (L.short(w), sorted(kinds)))
         if w in ok_writers:
